@@ -1,6 +1,6 @@
 (** Proofs about [Puml.Linearise] (the DFS printer of tel2puml/puml_graph.py). *)
 From Coq Require Import List Bool PArith Arith Lia.
-From V Require Import Puml.Ast Puml.Syntax Puml.Parse Puml.ParseProofs Puml.Linearise.
+From V Require Import Puml.Ast Puml.Syntax Puml.Parse Puml.ParseProofs Puml.Linearise Puml.LineariseCheck.
 Import ListNotations.
 
 (* ------------------------------------------------------------------------------------------ *)
@@ -666,3 +666,1027 @@ Section WalkSound.
       destruct s1; [|discriminate]. injection Hw as <- <-. reflexivity.
   Qed.
 End WalkSound.
+
+Section PnodeInd.
+  Variable P : pnode -> Prop.
+  Hypothesis HEv : forall e brk, P (PEvent e brk).
+  Hypothesis HLoop : forall ns sc h brk, Forall (fun iv => P (snd iv)) ns -> P (PLoop (PGraph ns sc h) brk).
+  Hypothesis HSub : forall ns sc h brk, Forall (fun iv => P (snd iv)) ns -> P (PSub (PGraph ns sc h) brk).
+  Hypothesis HOp : forall o k, P (POp o k).
+  Hypothesis HKill : P PKill.
+
+  Fixpoint pnode_nested_ind (n : pnode) : P n :=
+    let nodes_ind := fix go (l : list (nat * pnode)) : Forall (fun iv => P (snd iv)) l :=
+        match l with
+        | [] => Forall_nil _
+        | p :: r => Forall_cons p (pnode_nested_ind (snd p)) (go r)
+        end in
+    match n with
+    | PEvent e brk => HEv e brk
+    | PLoop g brk =>
+        match g as g0 return P (PLoop g0 brk) with
+        | PGraph ns sc h => HLoop ns sc h brk (nodes_ind ns)
+        end
+    | PSub g brk =>
+        match g as g0 return P (PSub g0 brk) with
+        | PGraph ns sc h => HSub ns sc h brk (nodes_ind ns)
+        end
+    | POp o k => HOp o k
+    | PKill => HKill
+    end.
+End PnodeInd.
+
+Lemma lookup_map {A B} (f : A -> B) (l : list (nat * A)) n :
+  lookup (map (fun iv => (fst iv, f (snd iv))) l) n = option_map f (lookup l n).
+Proof.
+  induction l as [|[k v] r IH]; [reflexivity|]. cbn [map lookup fst snd].
+  destruct (Nat.eqb k n); [reflexivity|exact IH].
+Qed.
+
+Lemma lookup_In {A} (l : list (nat * A)) n v : lookup l n = Some v -> In (n, v) l.
+Proof.
+  induction l as [|[k w] r IH]; [discriminate|]. cbn [lookup].
+  destruct (Nat.eqb k n) eqn:E.
+  - apply Nat.eqb_eq in E. intros [= ->]. subst. now left.
+  - intros H. right. now apply IH.
+Qed.
+
+Lemma classes_of_fix ns :
+  (fix go (l : list (nat * pnode)) : list (nat * option nclass) :=
+     match l with
+     | [] => []
+     | p :: r => match p with (i, x) => (i, classify x) :: go r end
+     end) ns = classes_of ns.
+Proof. induction ns as [|[i x] r IH]; [reflexivity|]. cbn [classes_of map fst snd]. now rewrite IH. Qed.
+
+Lemma classify_loop g brk :
+  classify (PLoop g brk) =
+  match is_block_graph g with Some d => Some (CLoop d brk) | None => None end.
+Proof. destruct g as [ns sc h]. cbn [classify]. rewrite classes_of_fix. reflexivity. Qed.
+
+Definition node_sound (pn : pnode) : Prop :=
+  forall c, classify pn = Some c ->
+            lin_node pn = Some (class_tokens c) /\ start_gate pn = class_shape c.
+
+Lemma graph_sound_aux ns sc h d :
+  Forall (fun iv => node_sound (snd iv)) ns ->
+  is_block_graph (PGraph ns sc h) = Some d -> lin_blocks (PGraph ns sc h) = Some (print_seq d).
+Proof.
+  intros Hall Hb. unfold is_block_graph, block_with in Hb. unfold lin_blocks.
+  cbn [g_nodes g_succ g_head] in *. rewrite blocks_with_tree.
+  destruct (length ns) as [|m] eqn:El; [now injection Hb as <-|].
+  destruct (dfs_tree_of sc (S m) h) as [t|]; [|discriminate].
+  destruct (walk (classes_of ns) t) as [[d' [|? ?]]|] eqn:Ew; try discriminate.
+  injection Hb as ->.
+  rewrite (walk_sound (classes_of ns) (render_nodes ns) (shapes_of ns)) with (s := d) (segs := []);
+    [now rewrite app_nil_r| |exact Ew].
+  intros n c Hc. unfold class_of, classes_of in Hc. rewrite lookup_map in Hc.
+  destruct (lookup ns n) as [pn|] eqn:Eln; [|discriminate]. cbn [option_map] in Hc.
+  apply lookup_In in Eln as Hin. rewrite Forall_forall in Hall. specialize (Hall _ Hin c Hc).
+  cbn [snd] in Hall. destruct Hall as [H1 H2].
+  unfold render_onode, render_nodes, shape_of, shapes_of. rewrite !lookup_map, Eln. cbn [option_map].
+  now rewrite H1, H2.
+Qed.
+
+Lemma node_sound_all pn : node_sound pn.
+Proof.
+  induction pn as [e brk|ns sc h brk IH|ns sc h brk IH|o k|] using pnode_nested_ind; intros c Hc.
+  - injection Hc as <-. split; reflexivity.
+  - rewrite classify_loop in Hc.
+    destruct (is_block_graph (PGraph ns sc h)) as [d|] eqn:Eb; [|discriminate].
+    injection Hc as <-. rewrite lin_node_loop, (graph_sound_aux _ _ _ _ IH Eb). split; reflexivity.
+  - discriminate.
+  - destruct o, k as [k|]; try discriminate; injection Hc as <-; destruct k; split; reflexivity.
+  - injection Hc as <-. split; reflexivity.
+Qed.
+
+(** A graph accepted by the checker prints as the diagram the checker returns. *)
+Theorem is_block_graph_blocks g d : is_block_graph g = Some d -> lin_blocks g = Some (print_seq d).
+Proof.
+  destruct g as [ns sc h]. apply graph_sound_aux.
+  apply Forall_forall. intros iv _. apply node_sound_all.
+Qed.
+
+Theorem is_block_graph_sound name g d :
+  is_block_graph g = Some d -> linearise name g = Some (print name d).
+Proof. intros H. unfold linearise. now rewrite (is_block_graph_blocks g d H). Qed.
+
+(** ... and, when the diagram is well formed, the emitted text parses back to it *)
+Corollary is_block_graph_parse name g d ts :
+  is_block_graph g = Some d -> wf d = true -> linearise name g = Some ts -> parse ts = Some (name, d).
+Proof.
+  intros Hb Hwf Hl. rewrite (is_block_graph_sound name g d Hb) in Hl. injection Hl as <-.
+  now apply parse_print.
+Qed.
+
+(** the known defect shape (pool definitions 408, 425, 501, ...: a loop body ending in a fork;
+    removing the dummy end event leaves the kill nodes, and with them the END operator,
+    unreachable from the head): [split ... split again ... repeat while] without [end split] *)
+Local Arguments linearise name%positive g.
+
+Definition defect_graph : pgraph :=
+  PGraph [(0, PEvent 1 false);
+          (1, PLoop (PGraph [(0, PEvent 2 false); (1, POp OStart (KGate OR)); (2, POp OEnd (KGate OR));
+                             (3, PEvent 3 false); (4, PEvent 4 false); (5, PKill); (6, PKill)]
+                            [(0, [1]); (1, [3; 4]); (2, []); (3, []); (4, []); (5, [2]); (6, [2])] 0)
+                     false)]
+         [(0, [1]); (1, [])] 0.
+
+Example defect_linearise :
+  linearise 9 defect_graph =
+  Some [TStartUml; TPartition 9; TGroup 9; TEvent 1; TRepeat; TEvent 2; TSplit; TEvent 4; TSplitAgain;
+        TEvent 3; TRepeatWhile; TEndGroup; TClose; TEndUml].
+Proof. reflexivity. Qed.
+
+Example defect_unparsable :
+  match linearise 9 defect_graph with Some ts => parse ts | None => None end = None
+  /\ is_block_graph defect_graph = None /\ heads_ok defect_graph = true.
+Proof. repeat split; reflexivity. Qed.
+
+(* ------------------------------------------------------------------------------------------ *)
+(** * (b) The canonical graph of a diagram prints as the diagram *)
+
+(** the branch fragments of a fork (named version of the local fixpoint of [seg_blk]) *)
+Fixpoint segs (e : nat) (etree : list dtree) (l : list (list blk)) (b0 : nat) {struct l} : frag :=
+  match l with
+  | [] => Frag [] [] b0 [] []
+  | s :: r =>
+      let fs := seg s b0 [e] (match r with [] => etree | _ :: _ => [] end) in
+      let fr := segs e etree r (f_next fs) in
+      frag_app fs fr (f_next fr) (f_entry fr ++ f_entry fs) (f_tree fr ++ f_tree fs)
+  end.
+
+Lemma seg_blk_fork k bs brk base nxt tail :
+  seg_blk (Fork k bs) brk base nxt tail =
+  let fbs := segs base [DNode base tail] bs (S (S base)) in
+  Frag ((base, POp OEnd (KGate k)) :: (S base, POp OStart (KGate k)) :: f_nodes fbs)
+       ((base, nxt) :: (S base, f_entry fbs) :: f_succ fbs)
+       (f_next fbs) [S base] [DNode (S base) (f_tree fbs)].
+Proof.
+  cbn [seg_blk]. generalize (S (S base)) as b0.
+  assert (H : forall b0,
+    (fix gos (l : list (list blk)) (b0 : nat) {struct l} : frag :=
+       match l with
+       | [] => Frag [] [] b0 [] []
+       | s :: r =>
+           let fs := seg s b0 [base] (match r with [] => [DNode base tail] | _ :: _ => [] end) in
+           let fr := gos r (f_next fs) in
+           frag_app fs fr (f_next fr) (f_entry fr ++ f_entry fs) (f_tree fr ++ f_tree fs)
+       end) bs b0 = segs base [DNode base tail] bs b0).
+  { induction bs as [|s r IH]; intros b0; [reflexivity|]. cbn [segs]. rewrite <- IH. reflexivity. }
+  intros b0. rewrite <- H. reflexivity.
+Qed.
+
+Lemma seg_blk_loop body brk base nxt tail :
+  seg_blk (Loop body) brk base nxt tail =
+  Frag [(base, PLoop (graph_of body) brk)] [(base, nxt)] (S base) [base] [DNode base tail].
+Proof. reflexivity. Qed.
+
+Lemma seg_cons b r base xl tail :
+  seg (b :: r) base xl tail =
+  let fr := seg r base xl tail in
+  let fb := seg_blk b (followed_by_break r) (f_next fr) (f_entry fr) (f_tree fr) in
+  frag_app fb fr (f_next fb) (f_entry fb) (f_tree fb).
+Proof. reflexivity. Qed.
+
+(** ** id ranges of fragments *)
+
+Definition ids (F : frag) : list nat := map fst (f_nodes F).
+
+Definition Inv (F : frag) (base : nat) (tail : list dtree) : Prop :=
+  base <= f_next F
+  /\ (forall x, In x (pre_l (f_tree F)) -> In x (pre_l tail) \/ base <= x < f_next F)
+  /\ (forall x, In x (pre_l tail) -> In x (pre_l (f_tree F)))
+  /\ (forall x, In x (ids F) -> base <= x < f_next F)
+  /\ NoDup (ids F)
+  /\ length (ids F) = f_next F - base
+  /\ map fst (f_succ F) = ids F.
+
+Lemma pre_l_single n ts : pre_l [DNode n ts] = n :: pre_l ts.
+Proof. unfold pre_l. cbn [flat_map pre]. now rewrite app_nil_r. Qed.
+
+Lemma pre_l_app a b : pre_l (a ++ b) = pre_l a ++ pre_l b.
+Proof. unfold pre_l. now rewrite flat_map_app. Qed.
+
+Ltac split7 := refine (conj _ (conj _ (conj _ (conj _ (conj _ (conj _ _)))))).
+
+Lemma Inv_single base pn nxt tail :
+  Inv (Frag [(base, pn)] [(base, nxt)] (S base) [base] [DNode base tail]) base tail.
+Proof.
+  unfold Inv, ids. cbn [f_next f_tree f_nodes f_succ map fst length]. rewrite pre_l_single.
+  split7.
+  - lia.
+  - intros x [<-|Hx]; [right; lia|now left].
+  - intros x Hx. now right.
+  - intros x [<-|[]]. lia.
+  - constructor; [intros []|constructor].
+  - lia.
+  - reflexivity.
+Qed.
+
+Lemma Inv_empty base xl tail : Inv (Frag [] [] base xl tail) base tail.
+Proof.
+  unfold Inv, ids. cbn [f_next f_tree f_nodes f_succ map length].
+  split7; auto; try lia; try (intros x []). constructor.
+Qed.
+
+Lemma Inv_app fb fr base tail :
+  Inv fr base tail -> Inv fb (f_next fr) (f_tree fr) ->
+  Inv (frag_app fb fr (f_next fb) (f_entry fb) (f_tree fb)) base tail.
+Proof.
+  intros (r1 & r2 & r3 & r4 & r5 & r6 & r7) (b1 & b2 & b3 & b4 & b5 & b6 & b7).
+  unfold Inv, ids, frag_app in *. cbn [f_next f_tree f_nodes f_succ].
+  rewrite !map_app, app_length.
+  split7.
+  - lia.
+  - intros x Hx. destruct (b2 x Hx) as [Hx'|Hx']; [destruct (r2 x Hx'); [now left|right; lia]|right; lia].
+  - intros x Hx. auto.
+  - intros x H. apply in_app_or in H as [H|H]; [apply b4 in H|apply r4 in H]; lia.
+  - apply nodup_app. repeat split; auto. intros x Hb Hr. apply b4 in Hb. apply r4 in Hr. lia.
+  - lia.
+  - now rewrite b7, r7.
+Qed.
+
+Definition seg_inv (s : list blk) : Prop :=
+  forall base xl tail, Inv (seg s base xl tail) base tail.
+
+Definition InvS (F : frag) (b0 : nat) (etree : list dtree) (ne : Prop) : Prop :=
+  b0 <= f_next F
+  /\ (forall x, In x (pre_l (f_tree F)) -> In x (pre_l etree) \/ b0 <= x < f_next F)
+  /\ (ne -> forall x, In x (pre_l etree) -> In x (pre_l (f_tree F)))
+  /\ (forall x, In x (ids F) -> b0 <= x < f_next F)
+  /\ NoDup (ids F)
+  /\ length (ids F) = f_next F - b0
+  /\ map fst (f_succ F) = ids F.
+
+Lemma segs_inv e etree bs :
+  Forall seg_inv bs -> forall b0, InvS (segs e etree bs b0) b0 etree (bs <> []).
+Proof.
+  induction 1 as [|s r Hs _ IH]; intros b0.
+  - unfold InvS, ids. cbn [segs f_next f_tree f_nodes f_succ map length].
+    split7.
+    + lia.
+    + intros x [].
+    + intros Hne. now elim Hne.
+    + intros x [].
+    + constructor.
+    + lia.
+    + reflexivity.
+  - cbn [segs].
+    set (t0 := match r with [] => etree | _ :: _ => [] end).
+    pose proof (Hs b0 [e] t0) as (s1 & s2 & s3 & s4 & s5 & s6 & s7).
+    set (fs := seg s b0 [e] t0) in *.
+    destruct (IH (f_next fs)) as (r1 & r2 & r3 & r4 & r5 & r6 & r7).
+    set (fr := segs e etree r (f_next fs)) in *.
+    unfold InvS, ids, frag_app in *. cbn [f_next f_tree f_nodes f_succ].
+    rewrite !map_app, app_length, pre_l_app.
+    split7.
+    + lia.
+    + intros x Hx. apply in_app_or in Hx as [Hx|Hx].
+      * destruct (r2 x Hx); [now left|right; lia].
+      * destruct (s2 x Hx) as [Hx'|Hx']; [|right; lia].
+        left. subst t0. destruct r; [assumption|destruct Hx'].
+    + intros _ x Hx. apply in_or_app. destruct r as [|s' r'].
+      * right. apply s3. exact Hx.
+      * left. apply r3; [discriminate|exact Hx].
+    + intros x H. apply in_app_or in H as [H|H]; [apply s4 in H|apply r4 in H]; lia.
+    + apply nodup_app. repeat split; auto. intros x Hb Hr. apply s4 in Hb. apply r4 in Hr. lia.
+    + lia.
+    + now rewrite s7, r7.
+Qed.
+
+Lemma seg_inv_of_blocks (Pb : blk -> Prop) s :
+  (forall b, Pb b -> wf_blk b = true -> forall brk base nxt tail, Inv (seg_blk b brk base nxt tail) base tail) ->
+  Forall Pb s -> wf_seq s = true -> seg_inv s.
+Proof.
+  intros HP Hall. induction Hall as [|b r Hb _ IH]; intros Hwf base xl tail.
+  - apply Inv_empty.
+  - apply wf_seq_inv in Hwf as (Hwb & Hwr & _). rewrite seg_cons. cbn zeta.
+    apply Inv_app; [now apply IH|]. now apply HP.
+Qed.
+
+Definition blk_inv (b : blk) : Prop :=
+  wf_blk b = true -> forall brk base nxt tail, Inv (seg_blk b brk base nxt tail) base tail.
+
+Lemma forallb_Forall {A} (f : A -> bool) l : forallb f l = true -> Forall (fun x => f x = true) l.
+Proof. intros H. apply Forall_forall. now apply forallb_forall. Qed.
+
+Lemma blk_inv_all b : blk_inv b.
+Proof.
+  induction b as [e|k bs IH|body IH| |] using blk_nested_ind; intros Hwf brk base nxt tail.
+  - apply Inv_single.
+  - rewrite wf_blk_fork in Hwf. apply andb_true_iff in Hwf as [Hne Hbs].
+    assert (Hsi : Forall seg_inv bs).
+    { apply forallb_Forall in Hbs. clear Hne.
+      induction IH as [|s r Hs _ IHr]; [constructor|]. inversion Hbs as [|? ? Hw Hbs']; subst.
+      constructor; [|now apply IHr]. unfold wf_branch in Hw. apply andb_true_iff in Hw as [_ Hw].
+      apply (seg_inv_of_blocks blk_inv); auto. }
+    rewrite seg_blk_fork. cbn zeta.
+    destruct (segs_inv base [DNode base tail] bs Hsi (S (S base))) as (r1 & r2 & r3 & r4 & r5 & r6 & r7).
+    set (fbs := segs base [DNode base tail] bs (S (S base))) in *.
+    assert (Hbs' : bs <> []) by (destruct bs; [discriminate|discriminate]).
+    unfold Inv, ids in *. cbn [f_next f_tree f_nodes f_succ map fst length].
+    rewrite pre_l_single in *.
+    split7.
+    + lia.
+    + intros x [<-|Hx]; [right; lia|]. destruct (r2 x Hx) as [[<-|Hx']|Hx']; [right; lia|now left|right; lia].
+    + intros x Hx. right. apply r3; [assumption|now right].
+    + intros x [<-|[<-|H]]; [lia|lia|apply r4 in H; lia].
+    + constructor; [|constructor; [|assumption]].
+      * intros [H|H]; [lia|apply r4 in H; lia].
+      * intros H. apply r4 in H. lia.
+    + lia.
+    + now rewrite r7.
+  - rewrite seg_blk_loop. apply Inv_single.
+  - apply Inv_empty.
+  - apply Inv_single.
+Qed.
+
+Lemma seg_inv_wf s : wf_seq s = true -> seg_inv s.
+Proof.
+  intros Hwf. apply (seg_inv_of_blocks blk_inv); auto.
+  apply Forall_forall. intros b _. apply blk_inv_all.
+Qed.
+
+(** ** the recursive DFS of a fragment *)
+
+Lemma R_app sc V cs1 V1 ts1 k1 cs2 V2 ts2 k2 :
+  R sc V cs1 V1 ts1 k1 -> R sc V1 cs2 V2 ts2 k2 -> R sc V (cs1 ++ cs2) V2 (ts1 ++ ts2) (k1 + k2).
+Proof.
+  induction 1 as [V|V c cs V' ts k Hm _ IH|V c cs Va tsa ka Vb ts kb Hm Ha _ _ IH2]; intros H2.
+  - exact H2.
+  - cbn [app Nat.add]. apply RSkip; auto.
+  - cbn [app]. replace (S (ka + S kb) + k2) with (S (ka + S (kb + k2))) by lia.
+    eapply RVisit; eauto.
+Qed.
+
+(** the global adjacency agrees with the fragment's own entries *)
+Definition A (sc : adjl) (F : frag) : Prop := forall k l, In (k, l) (f_succ F) -> adj sc k = l.
+
+(** what is known about the exit of a fragment: exploring [xl] from any visited set that extends
+    [V0] and avoids the zone [Z] yields the trees [tail] *)
+Definition exit_ok (sc : adjl) (V0 : list nat) (Z : nat -> Prop) (xl : list nat) (tail : list dtree) : Prop :=
+  forall V1, incl V0 V1 -> (forall x, Z x -> ~ In x V1) -> exists V' k, R sc V1 xl V' tail k.
+
+Definition reach (sc : adjl) (F : frag) (base : nat) (xl : list nat) (tail : list dtree) : Prop :=
+  forall V0 (Z : nat -> Prop),
+    exit_ok sc V0 Z xl tail -> (forall x, Z x -> x < base) -> (forall x, In x (pre_l tail) -> x < base) ->
+    forall V, incl V0 V -> (forall x, Z x \/ base <= x < f_next F -> ~ In x V) ->
+              exists V' k, R sc V (f_entry F) V' (f_tree F) k.
+
+Lemma reach_single sc base pn nxt tail :
+  A sc (Frag [(base, pn)] [(base, nxt)] (S base) [base] [DNode base tail]) ->
+  reach sc (Frag [(base, pn)] [(base, nxt)] (S base) [base] [DNode base tail]) base nxt tail.
+Proof.
+  intros HA V0 Z Hx HZ HT V HV0 HV. cbn [f_next f_entry f_tree] in *.
+  assert (Hadj : adj sc base = nxt) by (apply HA; now left).
+  destruct (Hx (base :: V)) as (V' & k & HR).
+  - intros x Hi. right. now apply HV0.
+  - intros x Hz [<-|Hi]; [apply HZ in Hz; lia|]. apply (HV x); auto.
+  - exists V', (S (k + 1)). eapply RVisit.
+    + apply mem_false. apply HV. right. lia.
+    + rewrite Hadj. exact HR.
+    + constructor.
+Qed.
+
+Lemma reach_empty sc base xl tail : reach sc (Frag [] [] base xl tail) base xl tail.
+Proof.
+  intros V0 Z Hx HZ HT V HV0 HV. cbn [f_next f_entry f_tree] in *.
+  apply Hx; [assumption|]. intros x Hz. apply HV. now left.
+Qed.
+
+Definition seg_reach (s : list blk) : Prop :=
+  forall sc base xl tail, A sc (seg s base xl tail) -> reach sc (seg s base xl tail) base xl tail.
+
+Definition blk_reach (b : blk) : Prop :=
+  wf_blk b = true ->
+  forall sc brk base nxt tail, A sc (seg_blk b brk base nxt tail) ->
+                               reach sc (seg_blk b brk base nxt tail) base nxt tail.
+
+Lemma seg_reach_of_blocks s : Forall blk_reach s -> wf_seq s = true -> seg_reach s.
+Proof.
+  intros Hall. induction Hall as [|b r Hb _ IH]; intros Hwf sc base xl tail HA.
+  - apply reach_empty.
+  - apply wf_seq_inv in Hwf as (Hwb & Hwr & _). rewrite seg_cons in *. cbn zeta in *.
+    pose proof (seg_inv_wf r Hwr base xl tail) as (r1 & r2 & r3 & r4 & r5 & r6 & r7).
+    set (fr := seg r base xl tail) in *.
+    pose proof (blk_inv_all b Hwb (followed_by_break r) (f_next fr) (f_entry fr) (f_tree fr))
+      as (b1 & _).
+    set (fb := seg_blk b (followed_by_break r) (f_next fr) (f_entry fr) (f_tree fr)) in *.
+    assert (HAb : A sc fb) by (intros k l Hi; apply HA; cbn [frag_app f_succ]; apply in_or_app; auto).
+    assert (HAr : A sc fr) by (intros k l Hi; apply HA; cbn [frag_app f_succ]; apply in_or_app; auto).
+    specialize (IH Hwr sc base xl tail HAr). specialize (Hb Hwb sc _ _ _ _ HAb).
+    fold fr in IH. fold fb in Hb.
+    intros V0 Z Hx HZ HT V HV0 HV. cbn [frag_app f_next f_entry f_tree] in *.
+    apply (Hb V0 (fun x => Z x \/ base <= x < f_next fr)).
+    + intros V1 HV1 HZ1. apply (IH V0 Z); auto.
+    + intros x [Hz|Hz]; [apply HZ in Hz|]; lia.
+    + intros x Hi. destruct (r2 x Hi) as [Ht|Ht]; [apply HT in Ht|]; lia.
+    + assumption.
+    + intros x [[Hz|Hz]|Hz]; apply HV; auto; right; lia.
+Qed.
+
+Lemma R_incl sc V cs V' ts k : R sc V cs V' ts k -> incl V V'.
+Proof. intros H. rewrite (R_visited _ _ _ _ _ _ H). intros x Hx. apply in_or_app. now right. Qed.
+
+Lemma segs_reach sc e tailE bs :
+  Forall seg_reach bs -> Forall seg_inv bs -> bs <> [] ->
+  forall b0, A sc (segs e [DNode e tailE] bs b0) ->
+  forall V0 (ZE : nat -> Prop),
+    exit_ok sc V0 ZE [e] [DNode e tailE] -> e < b0 -> (forall x, ZE x -> x < b0) ->
+    (forall x, In x (pre_l [DNode e tailE]) -> x < b0) ->
+    forall V, incl V0 V ->
+              (forall x, ZE x \/ b0 <= x < f_next (segs e [DNode e tailE] bs b0) -> ~ In x V) ->
+              exists V' k, R sc V (f_entry (segs e [DNode e tailE] bs b0)) V'
+                             (f_tree (segs e [DNode e tailE] bs b0)) k /\ In e V'.
+Proof.
+  intros Hre Hinv. revert Hre. induction Hinv as [|s r Hs Hinv IH]; intros Hre Hne; [now elim Hne|].
+  inversion Hre as [|? ? Hrs Hrr]; subst. clear Hre Hne.
+  intros b0 HA V0 ZE Hx He HZ HT V HV0 HV. cbn [segs] in *.
+  set (etree := [DNode e tailE]) in *.
+  set (t0 := match r with [] => etree | _ :: _ => [] end) in *.
+  pose proof (Hs b0 [e] t0) as (s1 & s2 & s3 & s4 & s5 & s6 & s7).
+  set (fs := seg s b0 [e] t0) in *.
+  pose proof (segs_inv e etree r Hinv (f_next fs)) as (q1 & q2 & q3 & q4 & q5 & q6 & q7).
+  set (fr := segs e etree r (f_next fs)) in *.
+  cbn [frag_app f_next f_entry f_tree f_succ] in *.
+  assert (HAs : A sc fs) by (intros k l Hi; apply HA; apply in_or_app; auto).
+  assert (HAr : A sc fr) by (intros k l Hi; apply HA; apply in_or_app; auto).
+  destruct r as [|s' r'].
+  - (* the last branch: explored first, reaches END *)
+    subst t0. cbn [segs f_entry f_tree f_next app] in *.
+    destruct (Hrs sc b0 [e] etree HAs V0 ZE Hx HZ HT V HV0) as (V' & k & HR).
+    + intros x Hz. apply HV. destruct Hz as [Hz|Hz]; [now left|right].
+      unfold fr, fs. cbn [f_next]. exact Hz.
+    + exists V', k. split; [exact HR|].
+      rewrite (R_visited _ _ _ _ _ _ HR). apply in_or_app. left. rewrite <- in_rev. apply s3.
+      subst etree. rewrite pre_l_single. now left.
+  - (* an earlier branch: explored after the later ones, END already visited *)
+    subst t0.
+    destruct (IH Hrr ltac:(discriminate) (f_next fs) HAr V0 ZE Hx ltac:(lia)) with (V := V)
+      as (V1 & k1 & HR1 & He1).
+    + intros x Hz. apply HZ in Hz. lia.
+    + intros x Hi. apply HT in Hi. lia.
+    + assumption.
+    + intros x Hz. apply HV. destruct Hz as [Hz|Hz]; [now left|right].
+      change (f_next fs <= x < f_next fr) in Hz. lia.
+    + fold fr in HR1.
+      destruct (Hrs sc b0 [e] [] HAs V1 (fun _ => False)) with (V := V1) as (V2 & k2 & HR2).
+      * intros V2 HV2 _. exists V2, 1. apply RSkip; [|constructor]. apply mem_In. now apply HV2.
+      * intros x [].
+      * intros x [].
+      * apply incl_refl.
+      * intros x [[]|Hxr] Hi. change (b0 <= x < f_next fs) in Hxr.
+        rewrite (R_visited _ _ _ _ _ _ HR1) in Hi.
+        apply in_app_or in Hi as [Hi|Hi].
+        -- rewrite <- in_rev in Hi. destruct (q2 x Hi) as [Ht|Ht]; [apply HT in Ht|]; lia.
+        -- revert Hi. apply HV. right. lia.
+      * exists V2, (k1 + k2). split; [eapply R_app; eauto|].
+        apply (R_incl _ _ _ _ _ _ HR2). exact He1.
+Qed.
+
+Lemma blk_reach_all b : blk_reach b.
+Proof.
+  induction b as [e|k bs IH|body IH| |] using blk_nested_ind; intros Hwf sc brk base nxt tail HA.
+  - now apply reach_single.
+  - rewrite wf_blk_fork in Hwf. apply andb_true_iff in Hwf as [Hne Hbs].
+    assert (Hbs' : bs <> []) by (destruct bs; discriminate).
+    apply forallb_Forall in Hbs.
+    assert (Hsi : Forall seg_inv bs).
+    { clear - Hbs. induction Hbs as [|s r Hw _ IHr]; constructor; auto.
+      unfold wf_branch in Hw. apply andb_true_iff in Hw as [_ Hw]. now apply seg_inv_wf. }
+    assert (Hsr : Forall seg_reach bs).
+    { clear - Hbs IH. induction IH as [|s r Hs _ IHr]; [constructor|].
+      inversion Hbs as [|? ? Hw Hbs']; subst. constructor; [|now apply IHr].
+      unfold wf_branch in Hw. apply andb_true_iff in Hw as [_ Hw]. now apply seg_reach_of_blocks. }
+    rewrite seg_blk_fork in *. cbn zeta in *.
+    pose proof (segs_inv base [DNode base tail] bs Hsi (S (S base))) as (q1 & q2 & q3 & q4 & q5 & q6 & q7).
+    set (fbs := segs base [DNode base tail] bs (S (S base))) in *.
+    assert (Hadj_e : adj sc base = nxt) by (apply HA; now left).
+    assert (Hadj_s : adj sc (S base) = f_entry fbs) by (apply HA; right; now left).
+    assert (HAb : A sc fbs) by (intros k' l Hi; apply HA; right; now right).
+    intros V0 Z Hx HZ HT V HV0 HV. cbn [f_next f_entry f_tree] in *.
+    destruct (segs_reach sc base tail bs Hsr Hsi Hbs' (S (S base)) HAb V0 (fun x => Z x \/ x = base))
+      with (V := S base :: V) as (V' & k' & HR & _).
+    + (* the END operator *)
+      intros V1 HV1 HZ1.
+      destruct (Hx (base :: V1)) as (V'' & k'' & HR').
+      * intros x Hi. right. now apply HV1.
+      * intros x Hz [<-|Hi]; [apply HZ in Hz; lia|]. apply (HZ1 x); auto.
+      * exists V'', (S (k'' + 1)). eapply RVisit.
+        -- apply mem_false. apply HZ1. now right.
+        -- rewrite Hadj_e. exact HR'.
+        -- constructor.
+    + lia.
+    + intros x [Hz| ->]; [apply HZ in Hz|]; lia.
+    + intros x Hi. rewrite pre_l_single in Hi. destruct Hi as [<-|Hi]; [|apply HT in Hi]; lia.
+    + intros x Hi. right. now apply HV0.
+    + fold fbs. intros x Hz [<-|Hi].
+      * destruct Hz as [[Hz|Hz]|Hz]; [apply HZ in Hz| |]; lia.
+      * revert Hi. apply HV. destruct Hz as [[Hz|Hz]|Hz]; [now left|right; lia|right; lia].
+    + fold fbs in HR. exists V', (S (k' + 1)). eapply RVisit.
+      * apply mem_false. apply HV. right. lia.
+      * rewrite Hadj_s. exact HR.
+      * constructor.
+  - rewrite seg_blk_loop in *. now apply reach_single.
+  - apply reach_empty.
+  - now apply reach_single.
+Qed.
+
+Lemma seg_reach_wf s : wf_seq s = true -> seg_reach s.
+Proof.
+  intros Hwf. apply seg_reach_of_blocks; [|assumption].
+  apply Forall_forall. intros b _. apply blk_reach_all.
+Qed.
+
+(** ** the DFS tree of the canonical graph is the expected tree *)
+
+Lemma lookup_nodup {B} (l : list (nat * B)) k v :
+  NoDup (map fst l) -> In (k, v) l -> lookup l k = Some v.
+Proof.
+  induction l as [|[k' v'] r IH]; intros Hnd Hi; [destruct Hi|].
+  cbn [map fst] in Hnd. inversion Hnd as [|? ? Hk Hr]; subst. cbn [lookup].
+  destruct Hi as [Hi|Hi].
+  - injection Hi as -> ->. now rewrite Nat.eqb_refl.
+  - destruct (Nat.eqb k' k) eqn:E; [|now apply IH].
+    apply Nat.eqb_eq in E. subst. elim Hk. apply in_map_iff. exists (k, v). auto.
+Qed.
+
+Lemma A_self F base tail : Inv F base tail -> A (f_succ F) F.
+Proof.
+  intros (_ & _ & _ & _ & r5 & _ & r7) k l Hi. unfold adj.
+  rewrite (lookup_nodup (f_succ F) k l); [reflexivity| |assumption]. now rewrite r7.
+Qed.
+
+Theorem dfs_tree_seg d h :
+  wf_seq d = true -> f_entry (seg d 0 [] []) = [h] ->
+  exists ts, f_tree (seg d 0 [] []) = [DNode h ts]
+             /\ dfs_tree_of (f_succ (seg d 0 [] [])) (length (f_nodes (seg d 0 [] []))) h
+                = Some (DNode h ts).
+Proof.
+  intros Hwf He.
+  pose proof (seg_inv_wf d Hwf 0 [] []) as HInv.
+  pose proof (A_self _ _ _ HInv) as HA.
+  destruct HInv as (r1 & r2 & r3 & r4 & r5 & r6 & r7).
+  set (F := seg d 0 [] []) in *.
+  destruct (seg_reach_wf d Hwf (f_succ F) 0 [] [] HA [] (fun _ => False)) with (V := @nil nat)
+    as (V' & k & HR).
+  - intros V1 _ _. exists V1, 0. constructor.
+  - intros x [].
+  - intros x [].
+  - apply incl_refl.
+  - intros x _ [].
+  - fold F in HR. rewrite He in HR.
+    inversion HR as [| |V c cs V1 ts1 k1 V2 ts k2 Hm HR1 HR2]; subst; [discriminate|].
+    inversion HR2; subst. exists ts1. split; [reflexivity|].
+    apply (dfs_tree_R _ _ _ _ _ _ HR1).
+    assert (Hnd : NoDup (pre (DNode h ts1))).
+    { pose proof (R_nodup _ _ _ _ _ _ HR1) as Hn. rewrite (R_visited _ _ _ _ _ _ HR1) in Hn.
+      specialize (Hn (NoDup_cons h (@in_nil _ h) (NoDup_nil _))).
+      apply NoDup_rev in Hn. rewrite rev_app_distr, rev_involutive in Hn. exact Hn. }
+    assert (Hin : incl (pre (DNode h ts1)) (seq 0 (f_next F))).
+    { intros x Hx. apply in_seq.
+      destruct (r2 x) as [[]|Hr]; [|lia].
+      match goal with H : [DNode h ts1] = f_tree F |- _ => rewrite <- H end.
+      now rewrite pre_l_single. }
+    pose proof (NoDup_incl_length Hnd Hin) as Hl. rewrite seq_length in Hl.
+    unfold ids in r6. rewrite map_length in r6. lia.
+Qed.
+
+(** ** the checker accepts the canonical graph (completeness on canonical graphs) *)
+
+Definition walk_l (cls : list (nat * option nclass)) (ts : list dtree) : option wres :=
+  match ts with [] => Some ([], []) | [c] => walk cls c | _ :: _ :: _ => None end.
+
+Definition walk_others (cls : list (nat * option nclass)) :=
+  fix go (l : list dtree) : option (list (list blk)) :=
+    match l with
+    | [] => Some []
+    | o :: r => match walk cls o, go r with
+                | Some (s, []), Some acc => Some (s :: acc)
+                | _, _ => None
+                end
+    end.
+
+Lemma walk_node cls n cs :
+  walk cls (DNode n cs) =
+  match class_of cls n with
+  | None => None
+  | Some (CEv e brk) => after_item (Ev e) brk (walk_l cls cs)
+  | Some (CLoop body brk) => after_item (Loop body) brk (walk_l cls cs)
+  | Some CKill => after_term Detach (walk_l cls cs)
+  | Some (CEnd k) =>
+      match walk_l cls cs with Some (s, segs) => Some ([], (k, s) :: segs) | None => None end
+  | Some (CStart k) =>
+      match cs with
+      | [] => None
+      | c :: others =>
+          match walk cls c with
+          | Some (sn, (k', s') :: segs) =>
+              if kind_eqb k k' then
+                match walk_others cls others with
+                | Some ss => Some (Fork k (rev ss ++ [sn]) :: s', segs)
+                | None => None
+                end
+              else None
+          | _ => None
+          end
+      end
+  end.
+Proof. reflexivity. Qed.
+
+Lemma walk_others_app cls a b :
+  walk_others cls (a ++ b) =
+  match walk_others cls a, walk_others cls b with
+  | Some x, Some y => Some (x ++ y)
+  | _, _ => None
+  end.
+Proof.
+  induction a as [|o r IH]; cbn [app walk_others].
+  - destruct (walk_others cls b); reflexivity.
+  - fold (walk_others cls). rewrite IH.
+    destruct (walk cls o) as [[s [|? ?]]|]; try reflexivity.
+    destruct (walk_others cls r); [|reflexivity]. destruct (walk_others cls b); reflexivity.
+Qed.
+
+(** the payload table agrees with the fragment *)
+Definition T (cls : list (nat * option nclass)) (F : frag) : Prop :=
+  forall i pn, In (i, pn) (f_nodes F) -> class_of cls i = classify pn.
+
+Definition items (b : blk) (brk : bool) : list blk :=
+  match b with
+  | Break => []
+  | Ev _ | Loop _ => if brk then [b; Break] else [b]
+  | _ => [b]
+  end.
+
+Definition strip (s : list blk) : list blk := match s with Break :: r => r | _ => s end.
+
+Definition seg_walk (s : list blk) : Prop :=
+  forall can, lin_ok_seq can s = true ->
+  forall cls base xl tail segs,
+    T cls (seg s base xl tail) -> walk_l cls tail = Some ([], segs) ->
+    walk_l cls (f_tree (seg s base xl tail)) = Some (strip s, segs).
+
+Definition blk_walk (b : blk) : Prop :=
+  wf_blk b = true -> lin_ok_blk b = true ->
+  forall cls brk base nxt tail s_t segs,
+    T cls (seg_blk b brk base nxt tail) -> walk_l cls tail = Some (s_t, segs) ->
+    (brk = true \/ b = Detach -> s_t = []) ->
+    walk_l cls (f_tree (seg_blk b brk base nxt tail)) = Some (items b brk ++ s_t, segs).
+
+Lemma lin_ok_seq_false_strip s : lin_ok_seq false s = true -> strip s = s.
+Proof. destruct s as [|[] r]; try reflexivity. cbn. discriminate. Qed.
+
+Lemma lin_ok_seq_weaken can s : lin_ok_seq false s = true -> lin_ok_seq can s = true.
+Proof. destruct can; [|auto]. destruct s as [|[] r]; auto. cbn. discriminate. Qed.
+
+(** the local fixpoint of [lin_ok_blk] is [lin_ok_seq] *)
+Lemma lin_ok_blk_fork k bs : lin_ok_blk (Fork k bs) = forallb (lin_ok_seq false) bs.
+Proof. reflexivity. Qed.
+Lemma lin_ok_blk_loop body : lin_ok_blk (Loop body) = lin_ok_seq false body.
+Proof. reflexivity. Qed.
+
+Lemma lin_ok_seq_cons can b r :
+  lin_ok_seq can (b :: r) = true ->
+  lin_ok_blk b = true
+  /\ lin_ok_seq (match b with Ev _ | Loop _ => true | _ => false end) r = true
+  /\ (b = Break -> can = true).
+Proof.
+  destruct b; cbn [lin_ok_seq]; intros H.
+  - repeat split; auto. discriminate.
+  - apply andb_true_iff in H as [H1 H2]. repeat split; auto. discriminate.
+  - apply andb_true_iff in H as [H1 H2]. repeat split; auto. discriminate.
+  - apply andb_true_iff in H as [H1 H2]. repeat split; auto.
+  - apply andb_true_iff in H as [H1 H2]. repeat split; auto. discriminate.
+Qed.
+
+Lemma seg_walk_of_blocks s : Forall blk_walk s -> wf_seq s = true -> seg_walk s.
+Proof.
+  intros Hall. induction Hall as [|b r Hb _ IH]; intros Hwf can Hok cls base xl tail segs HT Hw.
+  - exact Hw.
+  - apply wf_seq_inv in Hwf as (Hwb & Hwr & Hterm).
+    apply lin_ok_seq_cons in Hok as (Hob & Hor & Hbrk).
+    rewrite seg_cons in *. cbn zeta in *.
+    set (fr := seg r base xl tail) in *.
+    set (fb := seg_blk b (followed_by_break r) (f_next fr) (f_entry fr) (f_tree fr)) in *.
+    assert (HTb : T cls fb) by (intros i pn Hi; apply HT; cbn [frag_app f_nodes]; apply in_or_app; auto).
+    assert (HTr : T cls fr) by (intros i pn Hi; apply HT; cbn [frag_app f_nodes]; apply in_or_app; auto).
+    specialize (IH Hwr _ Hor cls base xl tail segs HTr Hw). fold fr in IH.
+    cbn [frag_app f_tree].
+    unfold fb. rewrite (Hb Hwb Hob cls _ _ _ _ (strip r) segs HTb IH).
+    + f_equal. f_equal. destruct b as [e|k bs|body| |]; cbn [items strip].
+      * destruct r as [|[] r']; try reflexivity.
+      * rewrite (lin_ok_seq_false_strip r Hor). reflexivity.
+      * destruct r as [|[] r']; try reflexivity.
+      * rewrite (lin_ok_seq_false_strip r Hor). reflexivity.
+      * rewrite (lin_ok_seq_false_strip r Hor). reflexivity.
+    + intros [Hbk| ->].
+      * destruct r as [|[] r']; try discriminate. cbn [strip].
+        (* [b; Break; r']: well-formedness forces r' = [] *)
+        apply wf_seq_inv in Hwr as (_ & _ & Hlast). apply Hlast. reflexivity.
+      * rewrite (Hterm eq_refl). reflexivity.
+Qed.
+
+Lemma seg_blk_shape b brk base nxt tail :
+  b <> Break ->
+  exists h t, f_entry (seg_blk b brk base nxt tail) = [h]
+              /\ f_tree (seg_blk b brk base nxt tail) = [t]
+              /\ f_nodes (seg_blk b brk base nxt tail) <> [].
+Proof.
+  intros Hb. destruct b as [e|k bs|body| |]; try (now elim Hb).
+  - do 2 eexists. cbn. repeat split. discriminate.
+  - rewrite seg_blk_fork. cbn zeta. do 2 eexists. cbn [f_entry f_tree f_nodes]. repeat split. discriminate.
+  - rewrite seg_blk_loop. do 2 eexists. cbn. repeat split. discriminate.
+  - do 2 eexists. cbn. repeat split. discriminate.
+Qed.
+
+Lemma seg_shape s base xl tail :
+  nonempty s = true -> lin_ok_seq false s = true ->
+  exists h t, f_entry (seg s base xl tail) = [h] /\ f_tree (seg s base xl tail) = [t]
+              /\ f_nodes (seg s base xl tail) <> [].
+Proof.
+  destruct s as [|b r]; [discriminate|]. intros _ Hok.
+  apply lin_ok_seq_cons in Hok as (_ & _ & Hbrk).
+  assert (Hb : b <> Break) by (intros ->; specialize (Hbrk eq_refl); discriminate).
+  rewrite seg_cons. cbn zeta. cbn [frag_app f_entry f_tree f_nodes].
+  destruct (seg_blk_shape b (followed_by_break r) (f_next (seg r base xl tail))
+              (f_entry (seg r base xl tail)) (f_tree (seg r base xl tail)) Hb) as (h & t & H1 & H2 & H3).
+  exists h, t. repeat split; auto. intros Happ. apply app_eq_nil in Happ as [Happ _]. auto.
+Qed.
+
+Lemma class_of_classes ns i pn :
+  NoDup (map fst ns) -> In (i, pn) ns -> class_of (classes_of ns) i = classify pn.
+Proof.
+  intros Hnd Hi. unfold class_of, classes_of. rewrite lookup_map.
+  now rewrite (lookup_nodup ns i pn Hnd Hi).
+Qed.
+
+Lemma graph_complete s :
+  seg_walk s -> wf_seq s = true -> lin_ok_seq false s = true -> is_block_graph (graph_of s) = Some s.
+Proof.
+  intros Hsw Hwf Hok. unfold is_block_graph, graph_of, pgraph_of_frag.
+  cbn [g_nodes g_succ g_head].
+  destruct s as [|b r]; [reflexivity|].
+  destruct (seg_shape (b :: r) 0 [] [] eq_refl Hok) as (h & t & He & Ht & Hn).
+  pose proof (seg_inv_wf _ Hwf 0 [] []) as (_ & _ & _ & _ & r5 & _ & _).
+  set (F := seg (b :: r) 0 [] []) in *.
+  destruct (dfs_tree_seg (b :: r) h Hwf He) as (ts & Hts & Hdfs). fold F in Hts, Hdfs.
+  rewrite He. cbn [hd]. unfold block_with.
+  destruct (length (f_nodes F)) as [|m] eqn:El; [destruct (f_nodes F); [now elim Hn|discriminate]|].
+  rewrite Hdfs.
+  assert (HT : T (classes_of (f_nodes F)) F).
+  { intros i pn Hi. now apply class_of_classes. }
+  pose proof (Hsw false Hok (classes_of (f_nodes F)) 0 [] [] [] HT eq_refl) as Hw.
+  fold F in Hw. rewrite Hts in Hw. cbn [walk_l] in Hw. rewrite Hw.
+  now rewrite (lin_ok_seq_false_strip _ Hok).
+Qed.
+
+Lemma segs_walk cls k e tailE s_t sg bs :
+  Forall seg_walk bs ->
+  Forall (fun s => nonempty s = true /\ lin_ok_seq false s = true) bs -> bs <> [] ->
+  forall b0, T cls (segs e [DNode e tailE] bs b0) ->
+  walk cls (DNode e tailE) = Some ([], (k, s_t) :: sg) ->
+  exists c others ss sn,
+    f_tree (segs e [DNode e tailE] bs b0) = c :: others
+    /\ walk cls c = Some (sn, (k, s_t) :: sg)
+    /\ walk_others cls others = Some ss
+    /\ rev ss ++ [sn] = bs.
+Proof.
+  intros Hsw. induction Hsw as [|s r Hs _ IH]; intros Hok Hne b0 HT Hwe; [now elim Hne|].
+  inversion Hok as [|? ? [Hnes Hoks] Hokr]; subst. clear Hok Hne.
+  cbn [segs] in *.
+  set (etree := [DNode e tailE]) in *.
+  set (t0 := match r with [] => etree | _ :: _ => [] end) in *.
+  destruct (seg_shape s b0 [e] t0 Hnes Hoks) as (h & t & _ & Ht & _).
+  set (fs := seg s b0 [e] t0) in *.
+  set (fr := segs e etree r (f_next fs)) in *.
+  cbn [frag_app f_tree f_nodes] in *.
+  assert (HTs : T cls fs) by (intros i pn Hi; apply HT; apply in_or_app; auto).
+  assert (HTr : T cls fr) by (intros i pn Hi; apply HT; apply in_or_app; auto).
+  destruct r as [|s' r'].
+  - subst t0. cbn [segs f_tree app] in *.
+    pose proof (Hs false Hoks cls b0 [e] etree _ HTs Hwe) as Hw. fold fs in Hw.
+    rewrite Ht in Hw |- *. cbn [walk_l] in Hw.
+    rewrite (lin_ok_seq_false_strip _ Hoks) in Hw.
+    exists t, [], [], s. repeat split; auto.
+  - subst t0.
+    destruct (IH Hokr ltac:(discriminate) (f_next fs) HTr Hwe) as (c & others & ss & sn & H1 & H2 & H3 & H4).
+    fold fr in H1.
+    pose proof (Hs false Hoks cls b0 [e] [] [] HTs eq_refl) as Hw. fold fs in Hw.
+    rewrite Ht in Hw |- *. cbn [walk_l] in Hw.
+    rewrite (lin_ok_seq_false_strip _ Hoks) in Hw.
+    rewrite H1. exists c, (others ++ [t]), (ss ++ [s]), sn. repeat split; auto.
+    + rewrite walk_others_app, H3. cbn [walk_others]. now rewrite Hw.
+    + rewrite rev_app_distr. cbn [rev app]. now rewrite H4.
+Qed.
+
+Lemma kind_eqb_refl k : kind_eqb k k = true.
+Proof. destruct k; reflexivity. Qed.
+
+Lemma blk_walk_all b : blk_walk b.
+Proof.
+  induction b as [e|k bs IH|body IH| |] using blk_nested_ind;
+    intros Hwf Hok cls brk base nxt tail s_t sg HT Hw Hterm.
+  - (* event *)
+    cbn [seg_blk f_tree walk_l]. rewrite walk_node.
+    rewrite (HT base (PEvent e brk)) by (now left). cbn [classify]. rewrite Hw.
+    unfold after_item. destruct brk; cbn [items app].
+    + rewrite Hterm by (now left). reflexivity.
+    + reflexivity.
+  - (* fork *)
+    rewrite wf_blk_fork in Hwf. apply andb_true_iff in Hwf as [Hne Hbs].
+    assert (Hbs' : bs <> []) by (destruct bs; discriminate).
+    apply forallb_Forall in Hbs. rewrite lin_ok_blk_fork in Hok. apply forallb_Forall in Hok.
+    assert (Hsw : Forall seg_walk bs).
+    { clear - Hbs IH. induction IH as [|s r Hs _ IHr]; [constructor|].
+      inversion Hbs as [|? ? Hw Hbs']; subst. constructor; [|now apply IHr].
+      unfold wf_branch in Hw. apply andb_true_iff in Hw as [_ Hw]. now apply seg_walk_of_blocks. }
+    assert (Hno : Forall (fun s => nonempty s = true /\ lin_ok_seq false s = true) bs).
+    { clear - Hbs Hok. induction Hbs as [|s r Hw _ IHr]; [constructor|].
+      inversion Hok; subst. constructor; [|now apply IHr].
+      unfold wf_branch in Hw. apply andb_true_iff in Hw as [Hw _]. auto. }
+    rewrite seg_blk_fork in *. cbn zeta in *.
+    set (fbs := segs base [DNode base tail] bs (S (S base))) in *.
+    cbn [f_tree f_nodes] in *.
+    assert (Hce : class_of cls base = Some (CEnd k)) by (apply (HT base (POp OEnd (KGate k))); now left).
+    assert (Hcs : class_of cls (S base) = Some (CStart k))
+      by (apply (HT (S base) (POp OStart (KGate k))); right; now left).
+    assert (HTb : T cls fbs) by (intros i pn Hi; apply HT; right; now right).
+    assert (Hwe : walk cls (DNode base tail) = Some ([], (k, s_t) :: sg)).
+    { rewrite walk_node, Hce. fold (walk_l cls tail). now rewrite Hw. }
+    destruct (segs_walk cls k base tail s_t sg bs Hsw Hno Hbs' (S (S base)) HTb Hwe)
+      as (c & others & ss & sn & H1 & H2 & H3 & H4).
+    fold fbs in H1. cbn [walk_l]. rewrite walk_node, Hcs, H1, H2, kind_eqb_refl, H3, H4.
+    reflexivity.
+  - (* loop *)
+    rewrite seg_blk_loop in *. cbn [f_tree f_nodes walk_l] in *. rewrite walk_node.
+    rewrite (HT base (PLoop (graph_of body) brk)) by (now left).
+    rewrite wf_blk_loop in Hwf. apply andb_true_iff in Hwf as [_ Hwf].
+    rewrite lin_ok_blk_loop in Hok.
+    rewrite classify_loop, (graph_complete body (seg_walk_of_blocks body IH Hwf) Hwf Hok).
+    fold (walk_l cls tail). rewrite Hw.
+    unfold after_item. destruct brk; cbn [items app].
+    + rewrite Hterm by (now left). reflexivity.
+    + reflexivity.
+  - (* break: transparent *)
+    cbn [seg_blk f_tree items app]. exact Hw.
+  - (* detach *)
+    cbn [seg_blk f_tree walk_l]. rewrite walk_node.
+    rewrite (HT base PKill) by (now left). cbn [classify]. fold (walk_l cls tail). rewrite Hw.
+    rewrite Hterm by (now right). reflexivity.
+Qed.
+
+Lemma seg_walk_wf s : wf_seq s = true -> seg_walk s.
+Proof.
+  intros Hwf. apply seg_walk_of_blocks; [|assumption].
+  apply Forall_forall. intros b _. apply blk_walk_all.
+Qed.
+
+(** Completeness of the checker on canonical graphs, and the block structure theorem. *)
+Theorem is_block_graph_graph_of d :
+  wf d = true -> lin_ok d = true -> is_block_graph (graph_of d) = Some d.
+Proof. intros Hwf Hok. apply graph_complete; auto. now apply seg_walk_wf. Qed.
+
+Theorem linearise_graph_of name d :
+  wf d = true -> lin_ok d = true -> linearise name (graph_of d) = Some (print name d).
+Proof. intros Hwf Hok. apply is_block_graph_sound. now apply is_block_graph_graph_of. Qed.
+
+Corollary parse_linearise_graph_of name d :
+  wf d = true -> lin_ok d = true ->
+  match linearise name (graph_of d) with Some ts => parse ts | None => None end = Some (name, d).
+Proof. intros Hwf Hok. rewrite (linearise_graph_of name d Hwf Hok). now apply parse_print. Qed.
+
+(* ------------------------------------------------------------------------------------------ *)
+(** * Non-vacuity and necessity of the side conditions *)
+
+
+(** E1; XOR { E2; AND {E3 | E4; detach} | repeat { E5; OR { E6; break | E7 } } ; break | detach }; E8 *)
+Definition example_diagram : diagram :=
+  [Ev 1;
+   Fork XOR [[Ev 2; Fork AND [[Ev 3]; [Ev 4; Detach]]];
+             [Loop [Ev 5; Fork OR [[Ev 6; Break]; [Ev 7]]]; Break];
+             [Detach]];
+   Ev 8].
+
+Example example_hyps : wf example_diagram = true /\ lin_ok example_diagram = true.
+Proof. split; reflexivity. Qed.
+
+Example example_graph :
+  graph_of example_diagram =
+  PGraph
+    [(11, PEvent 1 false); (1, POp OEnd (KGate XOR)); (2, POp OStart (KGate XOR)); (8, PEvent 2 false);
+     (3, POp OEnd (KGate AND)); (4, POp OStart (KGate AND)); (5, PEvent 3 false); (7, PEvent 4 false);
+     (6, PKill);
+     (9, PLoop (PGraph [(4, PEvent 5 false); (0, POp OEnd (KGate OR)); (1, POp OStart (KGate OR));
+                        (2, PEvent 6 true); (3, PEvent 7 false)]
+                       [(4, [1]); (0, []); (1, [3; 2]); (2, [0]); (3, [0])] 4) true);
+     (10, PKill); (0, PEvent 8 false)]
+    [(11, [2]); (1, [0]); (2, [10; 9; 8]); (8, [4]); (3, [1]); (4, [7; 5]); (5, [3]); (7, [6]);
+     (6, [3]); (9, [1]); (10, [1]); (0, [])] 11.
+Proof. reflexivity. Qed.
+
+Example example_dfs_tree :
+  dfs_tree (graph_of example_diagram) =
+  Some (DNode 11 [DNode 2 [DNode 10 [DNode 1 [DNode 0 []]]; DNode 9 [];
+                           DNode 8 [DNode 4 [DNode 7 [DNode 6 [DNode 3 []]]; DNode 5 []]]]]).
+Proof. reflexivity. Qed.
+
+Example example_linearise :
+  linearise 1 (graph_of example_diagram) = Some (print 1 example_diagram)
+  /\ is_block_graph (graph_of example_diagram) = Some example_diagram
+  /\ heads_ok (graph_of example_diagram) = true.
+Proof. repeat split; reflexivity. Qed.
+
+(** [dfs_tree_R] is not vacuous: a derivation of the recursive DFS for a diamond with a cross edge
+    (0 -> 1, 2; 1 -> 3; 2 -> 3) *)
+Example example_R :
+  let sc := [(0, [1; 2]); (1, [3]); (2, [3]); (3, [])] in
+  R sc [0] (adj sc 0) [2; 3; 1; 0] [DNode 1 [DNode 3 []]; DNode 2 []] 7
+  /\ dfs_tree_of sc 4 0 = Some (DNode 0 [DNode 1 [DNode 3 []]; DNode 2 []]).
+Proof.
+  split; [|reflexivity]. cbn.
+  apply (RVisit _ [0] 1 [2] [3; 1; 0] [DNode 3 []] 2 [2; 3; 1; 0] [DNode 2 []] 3); [reflexivity| |].
+  - apply (RVisit _ [1; 0] 3 [] [3; 1; 0] [] 0 [3; 1; 0] [] 0); [reflexivity|constructor|constructor].
+  - apply (RVisit _ [3; 1; 0] 2 [] [2; 3; 1; 0] [] 1 [2; 3; 1; 0] [] 0); [reflexivity| |constructor].
+    apply RSkip; [reflexivity|constructor].
+Qed.
+
+(** [lin_ok] cannot be dropped: a fork followed by [break] is well formed but the graph has no
+    place for the break flag *)
+Example lin_ok_needed :
+  let d := [Ev 1; Loop [Fork AND [[Ev 2]; [Ev 3]]; Break]] in
+  wf d = true /\ lin_ok d = false /\ linearise 1 (graph_of d) <> Some (print 1 d).
+Proof. repeat split; try reflexivity. cbv. discriminate. Qed.
+
+(** [wf] cannot be dropped either: an empty branch loses its separator *)
+Example wf_needed :
+  let d := [Fork AND [[]; [Ev 1]]] in
+  wf d = false /\ lin_ok d = true /\ linearise 1 (graph_of d) <> Some (print 1 d).
+Proof. repeat split; try reflexivity. cbv. discriminate. Qed.
+
+(** a graph that is not canonical (different ids and node order, as exported from python) but
+    block shaped: accepted by the checker, hence [is_block_graph_sound] applies *)
+Example exported_shape :
+  let g := PGraph [(0, PEvent 1 false); (1, POp OStart (KGate AND)); (2, POp OEnd (KGate AND));
+                   (3, PEvent 2 false); (4, PKill); (5, PEvent 3 false); (6, PKill)]
+                  [(0, [1]); (1, [3; 5]); (2, []); (3, [4]); (4, [2]); (5, [6]); (6, [2])] 0 in
+  is_block_graph g = Some [Ev 1; Fork AND [[Ev 3; Detach]; [Ev 2; Detach]]].
+Proof. reflexivity. Qed.
+
+(* ------------------------------------------------------------------------------------------ *)
+(** * Soundness of the executable interface [Puml.LineariseCheck] *)
+
+Lemma tok_eqb_eq a b : tok_eqb a b = true -> a = b.
+Proof.
+  destruct a, b; cbn [tok_eqb]; intros H; try discriminate; try reflexivity;
+    apply Pos.eqb_eq in H; now subst.
+Qed.
+
+Lemma toks_eqb_eq a b : toks_eqb a b = true -> a = b.
+Proof.
+  revert b. induction a as [|x a IH]; intros [|y b] H; try discriminate; [reflexivity|].
+  cbn [toks_eqb] in H. apply andb_true_iff in H as [H1 H2].
+  apply tok_eqb_eq in H1. apply IH in H2. now subst.
+Qed.
+
+Theorem lin_agrees_sound name g ts : lin_agrees name g ts = true -> linearise name g = Some ts.
+Proof.
+  unfold lin_agrees. destruct (linearise name g) as [l|]; [|discriminate].
+  intros H. apply toks_eqb_eq in H. now subst.
+Qed.
+
+(** certificate for one exported graph: the emitted text is the print of [d], and it is so because
+    of the structure of the graph's DFS tree *)
+Theorem lin_check_block name g ts d w :
+  lin_check name g ts = VBlock d w ->
+  linearise name g = Some ts /\ ts = print name d /\ is_block_graph g = Some d /\ w = wf d
+  /\ (w = true -> parse ts = Some (name, d)).
+Proof.
+  unfold lin_check. destruct (lin_agrees name g ts) eqn:Ea; [|discriminate]. cbn [negb].
+  destruct (heads_ok g); [|discriminate]. cbn [negb].
+  destruct (is_block_graph g) as [d'|] eqn:Eb; [|discriminate].
+  intros [= <- <-]. apply lin_agrees_sound in Ea.
+  pose proof (is_block_graph_sound name g d' Eb) as Hp. rewrite Ea in Hp. injection Hp as ->.
+  repeat split; auto. intros Hwf. now apply parse_print.
+Qed.
+
+(** a well-formed output can only come from ... nothing: [VNotBlock true] is possible in principle
+    (the checker is sound, and complete on canonical graphs only); on the 1200 pool definitions
+    it never occurs. *)
+Example lin_check_example :
+  lin_check 1 (graph_of example_diagram) (print 1 example_diagram) = VBlock example_diagram true
+  /\ lin_check 9 defect_graph
+       [TStartUml; TPartition 9; TGroup 9; TEvent 1; TRepeat; TEvent 2; TSplit; TEvent 4; TSplitAgain;
+        TEvent 3; TRepeatWhile; TEndGroup; TClose; TEndUml] = VNotBlock false.
+Proof. split; reflexivity. Qed.
+
+Print Assumptions linearise_tree.
+Print Assumptions dfs_tree_R.
+Print Assumptions is_block_graph_sound.
+Print Assumptions is_block_graph_parse.
+Print Assumptions is_block_graph_graph_of.
+Print Assumptions linearise_graph_of.
+Print Assumptions parse_linearise_graph_of.
+Print Assumptions lin_agrees_sound.
+Print Assumptions lin_check_block.
